@@ -24,8 +24,8 @@ open Cell2v.Graph
 def svcKeys : List String := [
   -- invocation points of the run-service loop
   "iface sche.IChanSelector.DoTask",        -- MultiSelector.HandleOnce → selector handler
-  "field sche.FuncSelector.fun",            -- FuncSelector.DoTask → registered selector closure
-  "field sche.RunTask.cb",                  -- Sche.doTask → posted closure
+  "field sche.FuncSelector.~sche.SelectorFunc",            -- FuncSelector.DoTask → registered selector closure
+  "field sche.RunTask.~sche.CBFunc",                  -- Sche.doTask → posted closure
   "field timer.Obj.CB",                     -- timer.Mgr.do → timer callback
   "field event.EListener.CB",               -- LocalEventCenter.dispatch → listener
   "value func()",                           -- scheDisp / stableDisp selector → mailbox run
@@ -41,8 +41,8 @@ def svcKeys : List String := [
   "ext apimapper/apientry",                 -- CallWithSerialize → handler method
   "ext node/client/impls",                  -- ClientSessions.AddSession / RemoveSession / ProcessMessage
   -- utils/waterfall (Sche / Builder): the steps and the final callback of a chain run on a service's scheduler
-  "field waterfall.Chain.tasks[]",          -- Chain.invokeTask → step
-  "field waterfall.Chain.final",            -- Chain.invokeFinal → final callback
+  "field waterfall.Chain.~[]waterfall.Task[]",          -- Chain.invokeTask → step
+  "field waterfall.Chain.~waterfall.FinalCallback",            -- Chain.invokeFinal → final callback
   -- user code run while the actor object is constructed (spawner's goroutine, before the service exists)
   "value actor.Producer",
   "field service.ExtProps.PostFuncs[]",
@@ -56,7 +56,7 @@ def utilKeys : List String := [
   "iface sche.IChanSelector.GetChannel",
   "iface event.ILocalEventCenter.GetChanEvent",
   "iface event.ILocalEventCenter.GetId",
-  "iface mailbox.queue.Pop", "iface mailbox.queue.Push",
+  "iface mailbox.{Pop,Push}.Pop", "iface mailbox.{Pop,Push}.Push",
   "ext actorex/queue/goring", "ext actorex/queue/mpsc",
   "iface actor.Dispatcher.Schedule",        -- the enqueue of a mailbox run (scheDisp.Schedule: channel send)
   "iface actor.Dispatcher.Throughput",
@@ -112,7 +112,7 @@ def reviewedLitKinds : List String := [
   "arg:iface actor.Dispatcher.Schedule",        -- m.processMessages handed to the dispatcher
   "arg:actor.WithMailbox",                      -- mailbox constructor closure
   "arg:actor.PropsFromProducer",                -- actor construction
-  "assigned:field waterfall.Chain.callbackFunc"] -- the completion callback waterfall.Sche hands to every step: the step may call it from
+  "assigned:field waterfall.Chain.~waterfall.Callback"] -- the completion callback waterfall.Sche hands to every step: the step may call it from
                                                 -- ANY goroutine, so the translator makes the closure a goroutine root (one of `timerRoots`):
                                                 -- `entry_only_via_loop` then says it reaches no step / final except through `Sche.Post`
 
@@ -131,14 +131,14 @@ def frameworkLinks : List (String × String) := [
 
 /-- site keys every occurrence of which must lie on a consumer loop -/
 def loopKeys : List String := [
-  "iface sche.IChanSelector.DoTask", "field sche.FuncSelector.fun", "field sche.RunTask.cb",
+  "iface sche.IChanSelector.DoTask", "field sche.FuncSelector.~sche.SelectorFunc", "field sche.RunTask.~sche.CBFunc",
   "field timer.Obj.CB", "field event.EListener.CB", "value func()",
   "iface actor.MessageInvoker.InvokeUserMessage", "iface actor.MessageInvoker.InvokeSystemMessage",
   "iface actor.MessageInvoker.EscalateFailure",
   "field service.RequestWaitResponse.CB", "iface service.IAPIDispatcher.Dispatch",
   "iface service.IRequestReceiver.ReceiveRequest", "field service.ExtProps.PostStartFuncs[]",
   "ext apimapper/apientry",
-  "field waterfall.Chain.tasks[]", "field waterfall.Chain.final"]
+  "field waterfall.Chain.~[]waterfall.Task[]", "field waterfall.Chain.~waterfall.FinalCallback"]
 
 /-! ### derived sets (strings are resolved to indices once; everything else is `Nat`) -/
 
@@ -227,7 +227,7 @@ def loopSites (G : CallGraph) : List Nat := (G.sites.filter fun s => (loopK G).c
 
 /-- closures handed to `Sche.Post` -/
 def postedLits (G : CallGraph) : List Nat :=
-  match indexOf G.kinds "stored:field sche.RunTask.cb" with
+  match indexOf G.kinds "stored:field sche.RunTask.~sche.CBFunc" with
   | some k => (G.lits.filter fun l => l.2 == k).map (·.1)
   | none => []
 
